@@ -29,11 +29,16 @@ package abft
 //@ ghost gApplyEpoch int
 //@ ghost gApplyRes *pos.Validators
 //@ ghost nLoaded int
+//@ // gConf[id]: frame on which the event was confirmed (0 = not confirmed; what Get/SetEventConfirmedOn keep in the epoch DB);
+//@ // gDeliv[id]: number of times the event was handed to the application's ApplyEvent in this epoch
+//@ ghost gConf[hash.Event] int
+//@ ghost gDeliv[hash.Event] int
 //@ ghost gLoadedEpoch int
 //@
 //@ iface EventSource.GetEvent
 //@   pure
-//@   ensures result != nil
+//@   params h
+//@   ensures result != nil && result.ID() == h
 //@ iface EventSource.HasEvent
 //@   pure
 //@ funcfield Orderer.crit
@@ -268,3 +273,56 @@ package abft
 //@   ensures  [accept] old(accept(p, e)) ==> (gSealN == old(gSealN) || gSealN == nApply)
 //@   ensures  [sealed] result == nil && gSealN != old(gSealN) ==> epochStart(p, old(stEpoch) + 1, gApplyRes) && oinv(p)
 //@   ensures  [open] result == nil && gSealN == old(gSealN) ==> stEpoch == old(stEpoch) && stValidators == old(stValidators) && oinv(p)
+//@
+//@ // ---- confirmed events traversal (C02) ----
+//@ trusted func (*Store).GetEventConfirmedOn
+//@   requires s != nil
+//@   ensures  result == gConf[e]
+//@ trusted func (*Store).SetEventConfirmedOn
+//@   requires s != nil
+//@   modifies gConf[e]
+//@   ghost gConf[e] = on
+//@ // the application's per-event callback: an event is handed over only after it was marked confirmed, and never twice
+//@ funcfield (*Lachesis).confirmEvents$1.onEventConfirmed
+//@   params ev
+//@   requires ev != nil && gDeliv[ev.ID()] == 0 && gConf[ev.ID()] != 0
+//@   modifies gDeliv[ev.ID()]
+//@   ghost gDeliv[ev.ID()] = old(gDeliv[ev.ID()]) + 1
+//@ // delivered at most once, and only confirmed events
+//@ spec dinv() bool = forall(x hash.Event, 0 <= gDeliv[x] && gDeliv[x] <= 1 && (gDeliv[x] == 1 ==> gConf[x] != 0))
+//@ func (*Lachesis).confirmEvents$1
+//@   requires p != nil && p.Orderer != nil && p.store != nil && e != nil && frame != 0 && dinv()
+//@   modifies gConf[e.ID()], gDeliv[e.ID()]
+//@   ensures  result == (old(gConf[e.ID()]) == 0)
+//@   ensures  result ==> gConf[e.ID()] == frame && (onEventConfirmed != nil ==> gDeliv[e.ID()] == 1)
+//@   ensures  !result ==> gConf[e.ID()] == old(gConf[e.ID()]) && gDeliv[e.ID()] == old(gDeliv[e.ID()])
+//@   ensures  dinv()
+//@
+//@ // dfsSubgraph is verified for the filter it is used with (the closure of confirmEvents)
+//@ funcfield (*Orderer).dfsSubgraph.filter = closure (*Lachesis).confirmEvents$1
+//@ // par(p, x): parent IDs of the event with ID x
+//@ spec par(p *Orderer, x hash.Event) hash.Events = p.input.GetEvent(x).Parents()
+//@ spec onSt(st hash.EventsStack, y hash.Event) bool = exists(j, 0, len(st), st[j] == y)
+//@ // closed(p): every parent of a confirmed event is confirmed
+//@ spec closed(p *Orderer) bool = forall(x hash.Event, gConf[x] != 0 ==> forall(i, 0, len(par(p, x)), gConf[par(p, x)[i]] != 0))
+//@ // pend(p, st, cur): every parent of a confirmed event is confirmed, on the stack, or the event about to be visited
+//@ spec pend(p *Orderer, st hash.EventsStack, cur *hash.Event) bool = forall(x hash.Event, gConf[x] != 0 ==> forall(i, 0, len(par(p, x)), gConf[par(p, x)[i]] != 0 || onSt(st, par(p, x)[i]) || (cur != nil && deref(cur) == par(p, x)[i])))
+//@
+//@ func (*Orderer).dfsSubgraph
+//@   requires p != nil && p.input != nil && closureof(filter, "(*Lachesis).confirmEvents$1")
+//@   requires deref(captured(filter, "(*Lachesis).confirmEvents$1", 0, "**Lachesis")) != nil && deref(captured(filter, "(*Lachesis).confirmEvents$1", 0, "**Lachesis")).Orderer != nil && deref(captured(filter, "(*Lachesis).confirmEvents$1", 0, "**Lachesis")).store != nil
+//@   requires deref(captured(filter, "(*Lachesis).confirmEvents$1", 1, "*idx.Frame")) != 0
+//@   requires dinv() && closed(p)
+//@   modifies gConf[*], gDeliv[*]
+//@   ensures  [closed] result == nil ==> closed(p) && gConf[head] != 0
+//@   ensures  [once] dinv()
+//@   ensures  [keep] forall(x hash.Event, old(gConf[x]) != 0 ==> gConf[x] == old(gConf[x]))
+//@   loop 1 modifies gConf[*], gDeliv[*], stack
+//@   loop 1 invariant arrfresh(stack, old(_alloc)) && (pwalk == nil ==> len(stack) == 0)
+//@   loop 1 invariant dinv() && pend(p, stack, pwalk) && (gConf[head] != 0 || (pwalk != nil && deref(pwalk) == head))
+//@   loop 1 invariant forall(x hash.Event, old(gConf[x]) != 0 ==> gConf[x] == old(gConf[x]))
+//@   loop 2 modifies stack
+//@   loop 2 invariant arrfresh(stack, old(_alloc))
+//@   loop 2 invariant 0 <= _k && _k <= len(_range) && len(stack) == atentry(len(stack)) + _k
+//@   loop 2 invariant forall(j, 0, atentry(len(stack)), stack[j] == atentry(stack)[j])
+//@   loop 2 invariant forall(i, 0, _k, stack[atentry(len(stack)) + i] == _range[i])
